@@ -131,6 +131,10 @@ def random_general(rng):
 
 def random_special_candidate(rng):
     x, y = random_general(rng)[:2]
+    if rng.random() < 0.5:
+        # coordinates as files quote them, four decimals ending in 5 (0.1225, 0.6225): exactly between two 3-decimal grid values
+        x = F(rng.randint(10, 989) * 10 + 5, 10000)
+        y = F(rng.randint(10, 989) * 10 + 5, 10000)
     pats = [lambda: (rng.choice(SPECIAL_VALUES), rng.choice(SPECIAL_VALUES), rng.choice(SPECIAL_VALUES)),
             lambda: (x, x, x), lambda: (x, -x, F(0)), lambda: (x, 2 * x, y), lambda: (x, F(0), F(0)), lambda: (F(0), x, F(0)),
             lambda: (F(0), F(0), x), lambda: (x, x, y), lambda: (x, y, F(1, 4)), lambda: (x, F(1, 4), y), lambda: (F(1, 4), x, y),
@@ -168,7 +172,7 @@ def separation_ok(symops, sites, margin=0.05):
 def random_sites(rng, symops, want_special):
     ops = [dec(c) for c in symops]
     for _ in range(200):
-        n = rng.choice([1, 1, 2, 2, 3])
+        n = rng.choice([1, 1, 2, 2, 3]) if not want_special else rng.choice([1, 1, 1, 2, 3])
         sites, nspecial = [], 0
         for k in range(n):
             z = rng.choice([1, 6, 7, 8, 9, 14, 16, 17, 26, 29, 79])
@@ -516,6 +520,24 @@ def search(ctx, budget):
                 r = judge(e, sites, seed)
                 if r:
                     ctx.fail(f"C01:{e.number}:{e.choice}", r, {"index": i, "sites": [[z, str(o), [str(x) for x in p]] for z, o, p in sites], "seed": seed})
+        if len(ctx.failures) >= 20:
+            break
+    # tetragonal settings, single sites on the diagonal mirror / glide positions (x, x+1/2, z) and (x, x, z) with x quoted to four decimals
+    # ending in 5: coincident images are computed along different routes (1/2 - (x + 1/2), -x + 1, ...) and agree only up to rounding
+    tet = [(i, e) for i, e in enumerate(entries()) if 99 <= e.number <= 142 and make_sg(e) is not None]
+    for i, e in ctx.rng.sample(tet, min(len(tet), 14 if budget == "quick" else 60)):
+        for _ in range(8 if budget == "quick" else 30):
+            x = F(ctx.rng.randint(10, 489) * 10 + 5, 10000)
+            zc = F(ctx.rng.randint(1, 96), 97)
+            for pos in ((x, x + F(1, 2), zc), (x, x, zc)):
+                sites = [(ctx.rng.choice([6, 8, 14]), ctx.rng.choice([F(1), F(1, 2)]), pos)]
+                if not separation_ok(e.symops, sites):
+                    continue
+                seed = ctx.rng.randrange(1 << 30)
+                ctx.case({"setting": f"{e.number}:{e.choice}", "sites": [[z, str(o), [str(x_) for x_ in p]] for z, o, p in sites]}, nontrivial=True)
+                r = judge(e, sites, seed)
+                if r:
+                    ctx.fail(f"C01:{e.number}:{e.choice}", r, {"index": i, "sites": [[z, str(o), [str(x_) for x_ in p]] for z, o, p in sites], "seed": seed})
         if len(ctx.failures) >= 20:
             break
     items = plan(ctx, 1 if budget == "quick" else 20)
